@@ -548,7 +548,13 @@ func (d *Driver) complete(e *mc.Env, s *mc.State, f *feedM, t time.Time, how str
 		}
 	}
 	if len(numeric) == 0 {
-		// nothing numeric to aggregate: the statement does not define the value
+		// nothing numeric to aggregate: the statement does not define the value - but the batch met its response
+		// threshold, so it "appends exactly one value", stamped with the block time, whatever that value is
+		if eqVals(got, f.Vals) {
+			fs = append(fs, mc.F("C17/value-missing/threshold-met/no-numeric-answer", "%s: no value was appended (values still %s)", desc, showVals(got)))
+		} else if len(got) == 0 || got[0].T != t.UnixNano() || !eqVals(got[1:], trim(f.Vals, f.Hist-1)) {
+			fs = append(fs, mc.F("C17/history-mismatch/after-batch", "%s: values were %s, stored %s (expected one new value stamped %s in front)", desc, showVals(f.Vals), showVals(got), t.UTC().Format(time.RFC3339Nano)))
+		}
 		return fs
 	}
 	cands := []cand{{aggregate(f.Agg, numeric), numeric}}
